@@ -88,7 +88,20 @@ pub fn loco_step_case2(id: String, st: &LocoStep, kind: &str, oracle: &dyn Fn(&L
             (Outcome::Ok(outs_loco(post)), oracle(st, post))
         }
         Err((-1, m)) => { tags.push("result:panic".into()); (Outcome::Panic(m.clone()), (vec![], vec![])) }
-        Err((c, m)) => { tags.push(format!("result:err{}", c)); (Outcome::Err(*c, m.clone()), (vec![], vec![])) }
+        Err((c, m)) => {
+            tags.push(format!("result:err{}", c));
+            // a request REFUSED for exceeding a limit is not shaft power: the engine's "previous shaft power" (what the next
+            // step's ramp-rate limit starts from) must be what it was before the call
+            let mut f = vec![];
+            if m.contains("must be less than or equal to") || m.contains("exceeds current max power") {
+                if let (PowertrainType::ConventionalLoco(a), Some(Locomotive { loco_type: PowertrainType::ConventionalLoco(b), .. })) = (&st.pre.loco_type, &st.after_err) {
+                    if a.fc.state.pwr_brake.value.to_bits() != b.fc.state.pwr_brake.value.to_bits() {
+                        f.push(format!("a request refused for exceeding a limit became the engine's previous shaft power ({} -> {}): the next step's ramp-rate limit starts from it", a.fc.state.pwr_brake.value, b.fc.state.pwr_brake.value));
+                    }
+                }
+            }
+            (Outcome::Err(*c, m.clone()), (f, vec![]))
+        }
     };
     Case { id, kind: kind.into(), coq, outcome, tags,
         input: json!({"loco_yaml": loco_yaml(&st.pre), "pwr": fjson(st.pwr), "dt": fjson(st.dt), "engine_on": st.engine_on}),
